@@ -108,12 +108,18 @@ theorem C14_sigkill_always_sent (u p : Nat) (s : State) (hp : (getW u s).1.pids.
     rfl
 
 /-- **a false `before_start` aborts the start**: for a stopped watcher the start coroutine ends at once
-    after the hook call — status still `stopped`, nothing spawned. -/
+    after the hook call — status still `stopped`, nothing spawned.  (`hp`: not an on-demand watcher
+    still waiting for its socket event — such a start returns even before the hook.) -/
 theorem C14_before_start_gate (rec : Rec) (u : Nat) (wt : Waiter) (s : State)
+    (hp : (pendingSocketEvent u s).1 = false)
     (hst : (getW u s).1.status = .stopped) (hr : (callHook u "before_start" s).1 = false) :
     startW rec u wt s = deliver rec wt .unit (callHook u "before_start" s).2 := by
   unfold startW
   simp only [bind]
+  have h0 : ¬ ((pendingSocketEvent u s).1 = true) := by simp [hp]
+  erw [if_neg h0]
+  have hs0 : (pendingSocketEvent u s).2 = s := rfl
+  simp only [hs0]
   have h1 : ¬ ((getW u s).1.status ≠ Status.stopped) := by simp [hst]
   erw [if_neg h1]
   have h2 : (!(callHook u "before_start" (getW u s).snd).fst) = true := by
